@@ -193,6 +193,7 @@ type Enc struct {
 
 type retInfo struct {
 	okRet bool // success return: last result is the constant nil error (or the function has no error result)
+	pos   string
 	reach string
 	vals  []string
 	st    map[string]string
